@@ -51,7 +51,7 @@ theorem lineFilter_keep (d : LineDef) (mt : Match) : Pres KeepIds (lineFilter re
   have hm := fun mt r e => (replaceMatch_frame rec env hs mt r e).keepIds
   have hms := macrosSetValue_keep
   keep_start
-  unfold lineFilter isSafeModeNz blockSetDefinition quotesSetDefinition replSetDefinition setOption documentInit
+  unfold lineFilter isSafeModeNz blockSetDefinition quotesSetDefinition replSetDefinition setOptionInDocument setOption documentInit
   simp only [bind_assoc, pure_bind]
   wp_go
 
